@@ -28,7 +28,7 @@ ANCHORS = [
     "acnportal.acnsim.events.event_queue:EventQueue._from_dict",
     "acnportal.acnsim.events.event:Event.__lt__",
 ]
-REQUIRED = ["returned_lists_mutated_by_the_client", "exhaustive_sequences", "random_ops", "json_round_trips", "op:get_event", "op:get_current_events",
+REQUIRED = ["bulk_queues_over_1000_pending", "returned_lists_mutated_by_the_client", "exhaustive_sequences", "random_ops", "json_round_trips", "op:get_event", "op:get_current_events",
             "op:add_events_bulk", "op:constructor_events", "ties_seen", "sim_runs_monitored", "sim_json_round_trips",
             "bulk_queues", "bulk_all_due_retrievals", "custom_precedence_round_trips", "queue_monitor:get_current_events", "queue_monitor:add", "queue_monitor:get_last_timestamp", "suite:queue_monitor:get_event"]
 BUDGET_S = {"quick": 240, "thorough": 3000}
@@ -58,6 +58,9 @@ def cases(seed, tier):
     nb = 24 if tier == "quick" else 600
     out += [{"kind": "bulk", "seed": rng.randrange(1 << 40), "n": rng.choice([128, 129, 200, 257, 400, 700]),
              "all_due": rng.random() < 0.6} for _ in range(nb)]
+    # thousands of pending events (sizes around powers of two), many distinct timestamps, partly drained, then used further
+    out += [{"kind": "bulk", "seed": rng.randrange(1 << 40), "n": rng.choice([1023, 1024, 1025, 1500, 2048, 2049, 3000, 4100]),
+             "all_due": False, "many_ts": rng.random() < 0.6} for _ in range(nb // 2)]
     out += [{"kind": "custom", "seed": rng.randrange(1 << 40)} for _ in range(300 if tier == "quick" else 20000)]
     return out
 
@@ -363,7 +366,9 @@ def _run_bulk(case, obs):
     c = ctx()
     rng = random.Random(case["seed"])
     n = case["n"]
-    nts = rng.choice([1, 2, 5, 12])
+    nts = rng.choice([1, 2, 5, 12]) if not case.get("many_ts") else rng.choice([40, 300, 5000])
+    if n >= 1000:
+        obs.ev("bulk_queues_over_1000_pending")
     evs = [c.make(rng.choice("UPR"), rng.randrange(nts), rng.randrange(12)) for _ in range(n)]
     m = Model()
     hist = []
@@ -394,7 +399,8 @@ def _run_bulk(case, obs):
             return
         obs.ev("bulk_all_due_retrievals")
     else:
-        for t in sorted(rng.sample(range(nts + 1), min(nts + 1, rng.randint(1, 4)))):
+        for t in sorted(rng.sample(range(nts + 1), min(nts + 1, rng.randint(1, 4)))) if nts <= 12 else sorted(
+                rng.sample(range(nts), 3) + [nts // 2, (2 * nts) // 3]):
             hist.append(("cur", t))
             if not do_cur(q, m, t, obs, hist) or not check_queries(q, m, obs, hist):
                 return
